@@ -4,6 +4,7 @@ import (
 	"fmt"
 	"go/constant"
 	"math/big"
+	"os"
 	"sort"
 	"strings"
 	"sync"
@@ -313,6 +314,24 @@ func (r *Run) Explore(fns []*ssa.Function) []*HarnessRun {
 		r.hs = append(r.hs, h)
 	}
 	var wg sync.WaitGroup
+	if os.Getenv("GOSYM_PROGRESS") != "" {
+		stop := make(chan struct{})
+		defer close(stop)
+		go func() {
+			for {
+				select {
+				case <-stop:
+					return
+				case <-time.After(10 * time.Second):
+					for _, h := range r.hs {
+						h.mu.Lock()
+						fmt.Fprintf(os.Stderr, "[progress] %s paths=%d pending=%d active=%d ends=%v\n", h.Name, h.Paths, len(h.work), h.active, h.Ends)
+						h.mu.Unlock()
+					}
+				}
+			}
+		}()
+	}
 	stats := make([]*Solver, r.Opt.Workers)
 	for w := 0; w < r.Opt.Workers; w++ {
 		wg.Add(1)
